@@ -17,7 +17,7 @@ from .. import fixsuite as fs
 from ..core import Report
 
 PROP = "C17"
-PARTS = ["corpus_all", "corpus_format", "corpus_layout", "mutants", "cases_own", "boundary"]
+PARTS = ["corpus_all", "corpus_format", "corpus_layout", "mutants", "cases_own"]
 
 
 def _bad(t: dict) -> bool:
